@@ -54,9 +54,9 @@ func checkC17(r *Report, known []Finding) {
 		"ExtractInner(ForReverseSearch) are checked by the verified Lean checker (Cx.LitCheck.checkPrefix/Suffix/Inner: product of the dumped NFA with the literal automaton; `ok` is a proof for ALL " +
 		"matches in ALL haystacks); a failing check yields a witness string that is validated against regexp (`^(?:p)$` matches it and no literal is a prefix/suffix/infix) before it counts; " +
 		"complete literals must themselves match; non-trivial = the sequence is non-empty; distinct by (pattern, limits, kind)"
-	np := 300
+	np := 3000
 	if r.Tier == "thorough" {
-		np = 3000
+		np = 15000
 	}
 	root := NewRNG(r.Seed)
 	type lcase struct {
